@@ -73,7 +73,7 @@ impl Parser for IntLiteral {
                     }),
                     map(literals::char, |token| {
                         if let TokenType::Char(c) = token.token_type {
-                            Some((c as u8).into())
+                            Some(c.into())
                         } else {
                             panic!("Invalid char parse")
                         }
